@@ -148,7 +148,12 @@ impl<T: BitRead> PackedRead for T {
         lower_bound: i64,
         upper_bound: i64,
     ) -> Result<i64, Error> {
-        let range = upper_bound - lower_bound;
+        let range = upper_bound.checked_sub(lower_bound).ok_or_else(|| {
+            ErrorKind::UnsupportedOperation(format!(
+                "The range {}..{} exceeds the supported 63 bits",
+                lower_bound, upper_bound
+            ))
+        })?;
         if range > 0 {
             Ok(lower_bound
                 + self.read_non_negative_binary_integer(None, Some(range as u64))? as i64)
@@ -475,17 +480,21 @@ impl<T: BitWrite> PackedWrite for T {
         upper_bound: i64,
         value: i64,
     ) -> Result<(), Error> {
-        let range = upper_bound - lower_bound;
+        if value < lower_bound || value > upper_bound {
+            return Err(ErrorKind::ValueNotInRange(value, lower_bound, upper_bound).into());
+        }
+        let range = upper_bound.checked_sub(lower_bound).ok_or_else(|| {
+            ErrorKind::UnsupportedOperation(format!(
+                "The range {}..{} exceeds the supported 63 bits",
+                lower_bound, upper_bound
+            ))
+        })?;
         if range > 0 {
-            if value < lower_bound || value > upper_bound {
-                Err(ErrorKind::ValueNotInRange(value, lower_bound, upper_bound).into())
-            } else {
-                self.write_non_negative_binary_integer(
-                    None,
-                    Some(range as u64),
-                    (value - lower_bound) as u64,
-                )
-            }
+            self.write_non_negative_binary_integer(
+                None,
+                Some(range as u64),
+                (value - lower_bound) as u64,
+            )
         } else {
             Ok(())
         }
